@@ -1745,6 +1745,9 @@ func e2eGenMode(forC16, forC10 bool) func(t *rapid.T) e2eCase {
 			WaitMS: rapid.SampledFrom([]int{0, 0, 50, 300, 1200}).Draw(t, "wait"), Prom: rapid.IntRange(0, 3).Draw(t, "prom") != 0}
 		c.State.AddrErr, c.State.RouteErr, c.State.NowNS = false, false, 0
 		c.Overlap = rapid.IntRange(0, 2).Draw(t, "overlap") == 0
+		if rapid.IntRange(0, 4).Draw(t, "repeatlabels") == 0 {
+			g.repeatLabels(&c.Doc) // options that share their metric labels without being neighbours in the RA
+		}
 		if forC16 {
 			// short deprecated lifetimes on the first prefix / route stanza of every interface, and time to see them count down
 			c.WaitMS = rapid.SampledFrom([]int{1100, 2100}).Draw(t, "c16wait")
